@@ -12,6 +12,15 @@ event tokens (python side; the third field of `v:` is the concrete accessory mod
   p:<c>           the accessory closes connection c
   t:r | t:t | t:o:<k>        script the next TCP connect: refused / timeout / ok to the k-th target
   v:<class>:<mode>           script the next pair-verify: class ok|wr|au|fa|ha, mode = accessory behaviour
+  g:<id>          a caller enters a public request that needs the connection (IpPairing.get_characteristics)
+  A+B(+C)         composite event: the actions are issued back-to-back in ONE event-loop iteration (each as a task / a
+                  call_soon callback, in this order) and only then is the loop run to quiescence; a part `.` lets one bare
+                  loop iteration pass between two actions.  Parts: e g c s d x X p.  The Lean model has no such event: a
+                  history is compared with the model only up to its first composite event.
+
+pairing-record variants (`record=` of run_scenario, table RECORDS): the stored pairing data is damaged / altered the way a
+hand-edited or half-written pairing file is, so that the secure-session setup fails with each exception class at each local
+step (or, for the benign variants, must still succeed).
 """
 from __future__ import annotations
 
@@ -76,6 +85,92 @@ def model_line_of(hosts, sim):
     return "rc.run " + ",".join(str(h) for h in hosts) + " " + " ".join(sim.model_events)
 
 
+# --------------------------------------------------------------------------- pairing-record variants
+# name -> (local step of the controller's pair-verify at which this record makes the exchange fail, class of that failure
+#          for the model: fa = any exception raised at once, wr = wrong pairing id, au = authentication error; None = the
+#          record is as good as the original and the session must come up as usual)
+# steps (HAP 5.7.2 / 5.7.4, controller side): 5 compare the accessory's pairing id, 6 load the accessory's LTPK and check the
+# signature, 7 build iOSDeviceInfo, 8 load the controller's LTSK and sign, 9 = M3 is sent and an honest accessory rejects it.
+RECORDS = {
+    "ltsk-short": (8, "fa"), "ltsk-long": (8, "fa"), "ltsk-odd": (8, "fa"), "ltsk-nothex": (8, "fa"), "ltsk-empty": (8, "fa"),
+    "ltsk-missing": (8, "fa"), "ltsk-none": (8, "fa"), "ltsk-other": (9, "au"),
+    "ltpk-short": (6, "fa"), "ltpk-long": (6, "fa"), "ltpk-odd": (6, "fa"), "ltpk-nothex": (6, "fa"), "ltpk-missing": (6, "fa"),
+    "ltpk-none": (6, "fa"), "ltpk-other": (6, "fa"),
+    "iosid-missing": (7, "fa"), "iosid-none": (7, "fa"), "iosid-other": (9, "au"),
+    "accid-other": (5, "wr"),
+    "hex-upper": (None, None), "hex-spaced": (None, None), "no-ios-ltpk": (None, None), "extra-keys": (None, None),
+}
+
+
+def mutate_record(pd, name, rnd):
+    """the pairing record `pd` (a dict as stored in the pairing file) altered as variant `name`"""
+    pd = dict(pd)
+    if name is None:
+        return pd
+    what, _, how = name.partition("-")
+    key = {"ltsk": "iOSDeviceLTSK", "ltpk": "AccessoryLTPK", "iosid": "iOSPairingId", "accid": "AccessoryPairingID"}.get(what)
+    if name == "hex-upper":
+        pd["iOSDeviceLTSK"] = pd["iOSDeviceLTSK"].upper()
+        pd["AccessoryLTPK"] = pd["AccessoryLTPK"].upper()
+    elif name == "hex-spaced":
+        # bytes.fromhex skips ASCII whitespace: a record that was pretty-printed by hand still parses
+        pd["iOSDeviceLTSK"] = " ".join(pd["iOSDeviceLTSK"][i:i + 2] for i in range(0, 64, 2))
+        pd["AccessoryLTPK"] = pd["AccessoryLTPK"][:32] + " " + pd["AccessoryLTPK"][32:]
+    elif name == "no-ios-ltpk":
+        pd.pop("iOSDeviceLTPK", None)
+    elif name == "extra-keys":
+        pd["AccessoryName"] = "acc"
+        pd["iOSDeviceLTPK"] = pd["iOSDeviceLTPK"].upper()
+    elif how == "short":
+        pd[key] = pd[key][:-2]
+    elif how == "long":
+        pd[key] = pd[key] + "00"
+    elif how == "odd":
+        pd[key] = pd[key][:-1]
+    elif how == "nothex":
+        pd[key] = pd[key][:10] + "zz" + pd[key][12:]
+    elif how == "empty":
+        pd[key] = ""
+    elif how == "missing":
+        del pd[key]
+    elif how == "none":
+        pd[key] = None
+    elif how == "other":
+        if what in ("ltsk", "ltpk"):
+            pd[key] = bytes(rnd.randrange(256) for _ in range(32)).hex()  # a well-formed key, but not the one that was paired
+        elif what == "iosid":
+            pd[key] = "ctrl-2"
+        else:
+            pd[key] = "12:34:56:00:01:0B"
+    else:
+        raise ValueError("unknown pairing-record variant " + name)
+    return pd
+
+
+def _acc_stage(mode):
+    """the local step of the controller at which the accessory behaviour `mode` makes the exchange fail"""
+    if mode == "hang":
+        return 1
+    if mode in ("close1", "reset1", "http470", "exc") or mode.startswith("err1"):
+        return 2
+    if mode == "wrongid":
+        return 5
+    if mode == "badsig":
+        return 6.5
+    if mode in ("close2", "reset2") or mode.startswith("err2"):
+        return 8.5
+    return 99
+
+
+def effective_class(record, cls, mode):
+    """the class of the pair-verify result when the accessory behaves as `mode` (scripted class `cls`) and the controller
+    holds pairing record `record`: whichever of the two goes wrong first decides"""
+    stage, rcls = RECORDS.get(record, (None, None)) if record else (None, None)
+    if stage is None or _acc_stage(mode) <= stage:
+        return cls
+    return rcls
+
+
 def description(hosts):
     return HomeKitService(name="acc", id="12:34:56:00:01:0A", model="m", feature_flags=FeatureFlags(0), status_flags=StatusFlags(0), config_num=0, state_num=1,
                           category=Categories.LIGHTBULB, protocol_version="1.1", type="_hap._tcp.local.", address=host(hosts[0]), addresses=[host(h) for h in hosts], port=80)
@@ -107,15 +202,23 @@ class Sim:
         self.attempts = []       # (units, [host idx])
         self.model_events = []   # the events as the model is given them (some harness events map to a model event decided at run time)
         self.stats = {}
+        self.model_upto = None   # the history can be compared with the model only up to this event index (None = all of it)
 
 
-def _run(hosts, events, seed, subs=None, family="v4"):
+def _run(hosts, events, seed, subs=None, family="v4", record=None):
     FAMILY["v"] = family
     loop = simnet.VLoop()
     asyncio.set_event_loop(loop)
     sim = Sim()
     try:
-        loop.run_until_complete(_scenario(loop, sim, hosts, events, seed))
+        loop.run_until_complete(_scenario(loop, sim, hosts, events, seed, record))
+    except RuntimeError as e:
+        if str(e) != "event loop does not settle" or not (record is not None or any("+" in ev or ev.startswith("g:") for ev in events)):
+            raise
+        # (new streams only) the library keeps the loop busy without time passing: that is the busy loop C10 excludes, not a harness error
+        sim.problems.append(("busy-loop", f"after {events[len(sim.lines)] if len(sim.lines) < len(events) else '?'}: the event loop does not come to rest at t={loop.time():.3f}s (10000 iterations without quiescence)"))
+        if sim.model_upto is None:
+            sim.model_upto = len(sim.lines)
     finally:
         try:
             pend = [t for t in asyncio.all_tasks(loop) if not t.done()]
@@ -129,8 +232,8 @@ def _run(hosts, events, seed, subs=None, family="v4"):
     return sim
 
 
-def run_scenario(hosts, events, seed=0, family="v4"):
-    return _run(hosts, events, seed, family=family)
+def run_scenario(hosts, events, seed=0, family="v4", record=None):
+    return _run(hosts, events, seed, family=family, record=record)
 
 
 def now_units(loop):
@@ -138,10 +241,31 @@ def now_units(loop):
     return int(round(u))
 
 
-async def _scenario(loop, sim, hosts, events, seed):
+async def _scenario(loop, sim, hosts, events, seed, record=None):
     rnd = random.Random(seed)
     net = simnet.Net(loop)
     acc = Accessory(loop, net, lambda n: bytes(rnd.randrange(256) for _ in range(n)))
+    unscripted = []  # connections whose pair-verify behaviour was not scripted (the accessory's default: an honest exchange)
+    orig_on_connect = net.on_connect
+
+    def on_connect(t):
+        if not acc.verify_mode:
+            unscripted.append(t.index)
+        orig_on_connect(t)
+    net.on_connect = on_connect
+    # single connector AT ANY TIME, not only at quiescence: the task factory sees every connector task the library creates
+    connectors = []
+    overlaps = []
+
+    def task_factory(loop_, coro, **kw):
+        t = asyncio.Task(coro, loop=loop_, **kw)
+        if getattr(coro, "__qualname__", "").endswith("._reconnect"):
+            alive = [c for c in connectors if not c.done()]
+            if alive:
+                overlaps.append((now_units(loop), len(alive) + 1))
+            connectors[:] = alive + [t]
+        return t
+    loop.set_task_factory(task_factory)
     raw_attempts = []
     orig_start = net.start_connection
 
@@ -170,7 +294,15 @@ async def _scenario(loop, sim, hosts, events, seed):
     close_raised = []
     problems = sim.problems
     with net.patched():
-        p = IpPairing(ctrl, acc.pairing_data([host(h) for h in hosts]))
+        try:
+            p = IpPairing(ctrl, mutate_record(acc.pairing_data([host(h) for h in hosts]), record, random.Random(seed ^ 0x5EED)))
+        except Exception as e:  # noqa: BLE001
+            if record is None:
+                raise
+            # the library refuses the damaged record outright: no pairing exists, nothing can be opened or leaked
+            sim.stats = {"record_refused": type(e).__name__}
+            sim.model_upto = 0
+            return
         conn = p.connection
         conn_ref.append(conn)
         # the caller subscribed to something in an earlier session: every new session re-subscribes inside connection_made,
@@ -195,13 +327,102 @@ async def _scenario(loop, sim, hosts, events, seed):
             last_attempt = None
             harness_cancelled = set()
             groups = []  # (timestamp, set of targeted addresses) while one connector keeps retrying
-            for ev in events:
+            # ---- composite events: several actions issued in one loop iteration
+            cstate = {"log": None, "att": None}  # execution-order log of the composite under way: T = a caller asks for the connection,
+            #                                      Z = zeroconf reports the device, C = close()/shutdown() is called, R = it
+            #                                      returned; att = number of attempts seen when the last close returned
+            request_callers = set()  # ids of callers that went through a public request (their wait is not the bare 10 s)
+            had_composite = False
+
+            async def caller(wid, own, kind):
+                t0 = now_units(loop)
+                if cstate["log"] is not None:
+                    cstate["log"].append("T")
+                try:
+                    coro = p._ensure_connected() if kind == "e" else p.get_characteristics([(1, 9)])
+                    if own is None:
+                        await coro
+                    else:
+                        await asyncio.wait_for(coro, own)
+                    out = "ok"
+                except asyncio.TimeoutError:
+                    out = "own"
+                except AccessoryDisconnectedError:
+                    out = "disc"
+                except AuthenticationError:
+                    out = "auth"
+                except asyncio.CancelledError:
+                    done.append((wid, "canc", now_units(loop), t0))
+                    raise
+                except BaseException as e:  # noqa: BLE001
+                    out = "other:" + type(e).__name__
+                done.append((wid, out, now_units(loop), t0))
+
+            async def closer2(kind):
+                nonlocal seen_shutdown
+                if cstate["log"] is not None:
+                    cstate["log"].append("C")
+                if kind == "X":
+                    seen_shutdown = True
+                try:
+                    await (p.close() if kind == "x" else p.shutdown())
+                except BaseException as e:  # noqa: BLE001
+                    close_raised.append(type(e).__name__)
+                if cstate["log"] is not None:
+                    cstate["log"].append("R")
+                    cstate["att"] = len(raw_attempts)
+
+            def sync_action(part):
+                g_ = part.split(":")
+                if g_[0] == "c":
+                    t_ = waiters.get(int(g_[1]))
+                    if t_ is not None and not t_.done():
+                        harness_cancelled.add(int(g_[1]))
+                        t_.cancel()
+                elif g_[0] in ("s", "d"):
+                    new_desc = p.description if g_[0] == "s" else description([int(x) for x in g_[1].split(",")])
+                    cstate["log"].append("Z")
+                    try:
+                        p._async_description_update(new_desc)
+                    except Exception as e:  # noqa: BLE001
+                        problems.append(("update-raised", f"the zeroconf update {part} (part of a composite event) raised {type(e).__name__}: {e}"))
+                elif g_[0] == "p":
+                    c_ = int(g_[1])
+                    if c_ < len(net.transports) and net.transports[c_] in net.open:
+                        net.transports[c_].peer_close()
+
+            for ei, ev in enumerate(events):
                 hosts_before = list(conn.hosts)
                 conn_before = conn.transport if p.is_connected else None  # the healthy session at the start of this event
                 f = ev.split(":")
                 k = f[0]
                 mtok = model_token(ev)
-                if k in ("j", "h"):
+                comp = None
+                if "+" in ev or k == "g":
+                    # no model event corresponds to this: the model is consulted on the history before it only
+                    if sim.model_upto is None:
+                        sim.model_upto = ei
+                    had_composite = True
+                    k = "+"
+                    comp = {"parts": ev.split("+"), "log": []}
+                    cstate["log"] = comp["log"]
+                    cstate["att"] = None
+                    for part in comp["parts"]:
+                        g_ = part.split(":")
+                        if g_[0] not in (".", "e", "g", "x", "X", "c", "s", "d", "p"):
+                            raise ValueError("bad part of a composite event: " + part)
+                        if part == ".":
+                            await asyncio.sleep(0)  # one bare loop iteration: whatever was issued so far takes its first step
+                        elif g_[0] in ("e", "g"):
+                            own_ = None if (len(g_) < 3 or g_[2] == "-") else int(g_[2]) / UNIT
+                            if g_[0] == "g":
+                                request_callers.add(int(g_[1]))
+                            waiters[int(g_[1])] = asyncio.ensure_future(caller(int(g_[1]), own_, g_[0]))
+                        elif g_[0] in ("x", "X"):
+                            asyncio.ensure_future(closer2(g_[0]))
+                        else:
+                            loop.call_soon(sync_action, part)
+                elif k in ("j", "h"):
                     # an established session gets a reply that makes the request layer give the connection up: malformed JSON to
                     # a JSON PUT (j) or an HTTP 470 to a TLV POST outside pair-verify (h).  For the supervisor this is the loss
                     # of the current connection: it must be followed by a new attempt like any other loss.
@@ -276,9 +497,16 @@ async def _scenario(loop, sim, hosts, events, seed):
                     net.connect_outcomes.append({"r": "refused", "t": "timeout"}.get(f[1]) or ("ok", int(f[2])))
                 elif k == "v":
                     acc.verify_mode.append(f[2] if len(f) > 2 else {"ok": "ok", "wr": "wrongid", "au": "err22", "fa": "err17", "ha": "hang", "ol": "oksubdrop"}[f[1]])
+                    if record is not None:
+                        # what the model is told is the class that results from the accessory's behaviour AND the controller's record
+                        mtok = "v:" + effective_class(record, f[1], acc.verify_mode[-1])
                 else:
                     raise ValueError("bad event " + ev)
                 await settle(loop)
+                if unscripted and RECORDS.get(record, (None, None))[0] is not None and sim.model_upto is None:
+                    # a connection used the accessory's default behaviour, which the model takes for a successful pair-verify;
+                    # with this record it is not
+                    sim.model_upto = ei
                 sim.model_events.append(mtok)
                 # ---- observation
                 new = raw_attempts[n_att:]
@@ -310,37 +538,109 @@ async def _scenario(loop, sim, hosts, events, seed):
                     problems.append(("more-than-one-open", f"after {ev}: the accessory sees connections {op} open at once"))
                 if op and (cur == "-" or op != [cur]):
                     problems.append(("leaked-connection", f"after {ev}: connection(s) {op} open but the pairing's current connection is {cur}"))
+                for t_ in net.open:
+                    # C11: a connection whose secure-session setup failed is closed by the controller - seen from the accessory: at
+                    # quiescence an open connection either carries an established session or the accessory still owes an answer on it
+                    s_ = acc.sessions.get(t_)
+                    if s_ is not None and not s_.secure and not (s_.mode == "hang" and s_.step >= 1):
+                        problems.append(("setup-failed-left-open", f"after {ev}: connection {t_.index} is still open although no secure session came up on it and the accessory owes no answer "
+                                         f"(pair-verify requests it received: {s_.step}, its behaviour: {s_.mode})"))
                 if live > 1 or net.max_in_flight > 1:
                     problems.append(("two-connectors", f"after {ev}: {live} connector tasks alive, {net.max_in_flight} connects in flight"))
+                if overlaps:
+                    # C10: a single connector at any time - seen at the moment the library creates the task, not only at quiescence
+                    problems.append(("two-connectors", f"after {ev}: a new connector task was started at t={overlaps[0][0] / UNIT:.3f}s while an earlier one had not finished ({overlaps[0][1]} alive at once)"))
+                    del overlaps[:]
                 if close_raised:
-                    problems.append(("close-raised", f"{'shutdown' if k == 'X' else 'close'}() raised {close_raised[0]}"))
+                    problems.append(("close-raised", f"{'shutdown' if (k == 'X' or (comp is not None and 'X' in comp['parts'] and 'x' not in comp['parts'])) else 'close'}() raised {close_raised[0]}"))
                     del close_raised[:]
-                if k in ("x", "X"):
+                shutdown_before = seen_shutdown and not (k == "X" or (comp is not None and "X" in comp["parts"]))
+                new_after = new  # the attempts of this event that were started after its (last) close had returned
+                comp_closed = False
+                if comp is not None:
+                    log = comp["log"]
+                    cstate["log"] = None
+                    if "C" in log:
+                        comp_closed = True
+                        if log.count("R") < log.count("C"):
+                            problems.append(("close-raised", f"after {ev}: close()/shutdown() had not returned when the event loop went quiet"))
+                        # which requests for the connection does the close cover?  A caller's request made before close() was CALLED
+                        # is ended by it; one made after every close had RETURNED is a new request; one made while a close was still
+                        # in progress is concurrent with it - either order is a correct outcome (the close wins: nothing runs any
+                        # more, or the request wins: the pairing is open again) - so nothing is demanded until the history
+                        # shows which it was.  A zeroconf update is fire-and-forget: the library may act on it in a background
+                        # task (the accessory-list refresh after a new configuration number), so one handed over in the same loop
+                        # iteration as the close - even just before it - counts as concurrent too.
+                        # shutdown() is irreversible: nothing may follow it in either order.
+                        last_c = len(log) - 1 - log[::-1].index("C")
+                        state, inprog, z_before, others = True, 0, False, False
+                        for i_, it in enumerate(log):
+                            if it == "C":
+                                inprog += 1
+                            elif it == "R":
+                                inprog -= 1
+                            elif i_ > last_c:
+                                others = True
+                                if inprog == 0:
+                                    state = False
+                                elif state is True:
+                                    state = None
+                            elif it == "Z":
+                                z_before = True
+                        if z_before and state is True:
+                            state = None
+                        new_after = raw_attempts[cstate["att"]:] if cstate["att"] is not None else []
+                        if state is None and new_after:
+                            state = False  # attempts after the close had returned: the concurrent request won
+                            if z_before and not others and not seen_shutdown:
+                                # noted, not reported (see the comment above)
+                                problems.append(("zeroconf-update-outlives-close", f"after {ev}: the zeroconf update was handed over before close() was called, yet connection attempt(s) {new_after} followed after close() had returned"))
+                        quiet = True if seen_shutdown else state
+                    elif ("T" in log or "Z" in log) and not seen_shutdown:
+                        quiet = False
+                elif k in ("x", "X"):
                     quiet = True
                 elif k in ("e", "s", "d") and not seen_shutdown:
                     quiet = False
+                elif quiet is None and new:
+                    quiet = False  # the request that was concurrent with the close won: the pairing is open
                 if k in ("x", "X") and op:
                     problems.append(("open-after-close", f"after {ev}: connection(s) {op} still open"))
-                elif quiet and (op or new):
+                elif comp_closed and quiet is True and (op or new_after):
+                    what = f"connection(s) {op} open" if op else f"connection attempt(s) {new_after} after close() had returned"
+                    problems.append(("open-after-close", f"after {ev}: {what} although every request for the connection in this event was made before the {'shutdown' if seen_shutdown else 'close'} was called"))
+                    if new_after:
+                        problems.append(("attempt-after-close", f"after {ev}: connection attempt(s) {new_after} after close() had returned although every request for the connection in this event was made before the close was called"))
+                elif not comp_closed and quiet and (op or new):
                     what = f"connection(s) {op} open" if op else f"connection attempt(s) {new}"
                     problems.append(("open-after-close", f"after {ev}: {what} although the pairing was {'shut down' if seen_shutdown else 'closed'} and nothing has asked for a connection since"))
+                    if new:
+                        problems.append(("attempt-after-close", f"after {ev}: connection attempt(s) {new} although the pairing was {'shut down' if seen_shutdown else 'closed'} and nothing has asked for a connection since"))
                 if new and conn_before is not None and conn_before in net.open:
                     # C10: retries end by success - a connector that keeps connecting although the session it set up is alive
                     problems.append(("attempt-while-connected", f"after {ev}: connection attempt(s) {new} although the pairing was connected (connection {conn_before.index}) and that connection was never lost"))
-                if seen_shutdown and new:
-                    problems.append(("attempt-after-shutdown", f"after {ev}: connection attempt(s) {new} after shutdown()"))
+                if comp is None:
+                    if seen_shutdown and new:
+                        problems.append(("attempt-after-shutdown", f"after {ev}: connection attempt(s) {new} after shutdown()"))
+                elif seen_shutdown and (new if shutdown_before else new_after):
+                    problems.append(("attempt-after-shutdown", f"after {ev}: connection attempt(s) {new if shutdown_before else new_after} after shutdown() {'had been called' if shutdown_before else 'had returned'}"))
                 for i, o, t, t0 in fin:
                     if o.startswith("other"):
-                        problems.append(("waiter-wrong-error", f"waiting caller {i} got {o[6:]} instead of a disconnection or authentication error"))
+                        if i in request_callers:
+                            problems.append(("request-wrong-error", f"the request of caller {i} raised {o[6:]} instead of a disconnection or authentication error (after {ev})"))
+                        else:
+                            problems.append(("waiter-wrong-error", f"waiting caller {i} got {o[6:]} instead of a disconnection or authentication error"))
                     if o == "canc" and i not in harness_cancelled:
                         problems.append(("waiter-wrong-error", f"waiting caller {i} got a bare CancelledError although nobody cancelled it (after {ev})"))
-                    if t - t0 > 10 * UNIT:
+                    if t - t0 > 10 * UNIT and i not in request_callers:
                         problems.append(("waiter-unbounded", f"waiting caller {i} waited {(t - t0) / UNIT:.3f} s"))
                 if net.errors:
                     problems.append(("callback-raised", f"after {ev}: {net.errors[0]}"))
                     del net.errors[:]
                 # C10: retries end only by success, authentication failure or close
-                if not conn.closing and cs in ("done", "canc") and not p.is_connected:
+                # (whether the pairing is closed: the library's flag in plain histories - there it is what the harness did last - ,
+                # the harness's own reckoning once composite events made the two differ; nothing is demanded while it is undecided)
+                if (not conn.closing if not had_composite else quiet is False) and cs in ("done", "canc") and not p.is_connected:
                     problems.append(("retries-ended", f"after {ev}: connector finished ({cs}), pairing not connected, close() not called - nothing will retry"))
                 if cs.startswith("exc:"):
                     problems.append(("retries-ended", f"after {ev}: connector died with {cs[4:]}"))
@@ -348,6 +648,8 @@ async def _scenario(loop, sim, hosts, events, seed):
                 # force before and after this event: a zeroconf update may have replaced it while attempts were under way)
                 H = max(len(conn.hosts), len(hosts_before), 1)
                 bound = H * H + H + (H * H + H if list(conn.hosts) != hosts_before else 0)  # one round per list in force
+                if comp is not None:
+                    bound *= max(1, comp["log"].count("T") + comp["log"].count("Z"))  # ... and per request for the connection made in this event
                 by_t = {}
                 for t, hs in new:
                     by_t[t] = by_t.get(t, 0) + 1
@@ -367,12 +669,14 @@ async def _scenario(loop, sim, hosts, events, seed):
                 new_open = opened[n_open:]
                 n_open = len(opened)
                 seen_at = {}
+                if comp is not None and (comp_closed or comp["log"].count("T") + comp["log"].count("Z") > 1):
+                    new_open = []  # a close and a new request, or two requests (the second cuts the back-off short), in one event: two legitimate rounds
                 for t, h, adv in new_open:
                     if h in seen_at.get((t, adv), ()):
                         problems.append(("immediate-retry-same-address", f"after {ev}: address {h} was connected to twice at the same instant t={t / UNIT:.3f}s under the same advertised list (no back-off in between)"))
                     seen_at.setdefault((t, adv), set()).add(h)
                 # C10: no advertised address is excluded forever
-                if k in ("x", "X", "d"):
+                if k in ("x", "X", "d") or comp_closed or (comp is not None and any(x.startswith("d:") for x in comp["parts"])):
                     groups = []
                 for t, hs in new:
                     if groups and groups[-1][0] == t:
@@ -526,3 +830,147 @@ def shrink(hosts, events, still_fails):
             pass
         i += 1
     return evs
+
+
+# --------------------------------------------------------------------------- composite events (several actions in one loop iteration)
+
+# how to bring the supervisor to each phase (fault script, addresses, events before the composite); the third field names
+# the phase for the distribution in the evidence
+PHASES = [
+    ("idle", [1], []),
+    ("idle", [1, 2], ["v:wr:wrongid"]),
+    ("connected", [1], ["e:1:-"]),
+    ("connected", [1, 2], ["s", f"a:{U}"]),
+    ("connecting", [1], ["t:t", "e:1:-", f"a:{U}"]),
+    ("connecting", [1, 2, 3], ["t:t", "t:t", "s", f"a:{11 * U}"]),
+    ("verifying", [1], ["v:ha:hang", "e:1:-", f"a:{U}"]),
+    ("verifying", [1, 2], ["v:wr:wrongid", "v:ha:hang", "s", f"a:{12 * U}"]),
+    ("sleeping", [1], ["t:r"] * 12 + ["e:1:-", f"a:{U}"]),
+    ("sleeping", [1], ["v:fa:err17"] * 12 + ["s", f"a:{50 * U}"]),
+    ("sleeping", [1, 2], ["v:fa:badsig", "t:r", "v:fa:close1"] + ["t:r"] * 9 + ["e:1:24577", f"a:{20 * U}"]),
+    ("auth-ended", [1], ["v:au:err22", "e:1:-", f"a:{U}"]),
+    ("closed", [1], ["e:1:-", "x"]),
+    ("closed-while-retrying", [1, 2], ["t:r"] * 6 + ["e:1:-", f"a:{3 * U}", "x"]),
+    ("lost", [1], ["v:ok:ok", "t:r", "t:r", "t:r", "e:1:-", "p:0", f"a:{U}"]),
+]
+COMPOSITE_ACTIONS = ["x", "X", "e", "g", "s", "d", "c", "p"]
+COMPOSITE_TAIL = ["a:2", f"a:{12 * U}", f"a:{100 * U}"]
+
+
+def _composite(actions, yields, rng, wid0=10):
+    """the token of a composite event: `actions` joined with `yields[i]` bare loop iterations after the i-th action"""
+    parts = []
+    wid = wid0
+    for i, a in enumerate(actions):
+        if a in ("e", "g"):
+            wid += 1
+            parts.append(f"{a}:{wid}:" + ("-" if rng.random() < 0.75 else "24577"))
+        elif a == "d":
+            parts.append("d:" + ",".join(map(str, sorted(rng.sample([1, 2, 3, 4], rng.randrange(1, 4))))))
+        elif a == "c":
+            parts.append(f"c:{rng.choice([1, 1, wid]) if wid > wid0 else 1}")
+        elif a == "p":
+            parts.append(f"p:{rng.randrange(0, 3)}")
+        else:
+            parts.append(a)
+        if i < len(actions) - 1:
+            parts += ["."] * yields[i]
+    return "+".join(parts)
+
+
+def gen_composites(rng, n_spaced=300, n_triples=200, n_random=150):
+    """(A) EVERY ordered pair of actions over COMPOSITE_ACTIONS issued back-to-back in one loop iteration, in every phase of the
+    supervisor; (B) pairs with 1..4 bare loop iterations in between (the second action then meets the first one half-way:
+    close() after its connector has been cancelled but before it resumed, ...); (C) triples; (D) random histories in which
+    composite events replace some plain events.  Each followed by time passing (2 units, 12 s, 100 s) and sometimes a close."""
+    import itertools
+    out = []
+
+    def tail():
+        r = rng.random()
+        return COMPOSITE_TAIL + ([] if r < 0.6 else ["x", f"a:{12 * U}"] if r < 0.8 else ["e:99:-", f"a:{12 * U}", "X", f"a:{12 * U}"])
+    pairs = list(itertools.product(COMPOSITE_ACTIONS, repeat=2))
+    phase_names = sorted(set(ph[0] for ph in PHASES))
+    for name in phase_names:
+        variants = [ph for ph in PHASES if ph[0] == name]
+        for i, pr in enumerate(pairs):
+            _, hosts, pre = variants[(i + rng.randrange(len(variants))) % len(variants)]
+            out.append((list(hosts), list(pre) + [_composite(pr, [0], rng)] + tail(), "pair", name))
+    for _ in range(n_spaced):
+        name, hosts, pre = rng.choice(PHASES)
+        pr = rng.choice(pairs)
+        out.append((list(hosts), list(pre) + [_composite(pr, [rng.randrange(1, 5)], rng)] + tail(), "pair-spaced", name))
+    for _ in range(n_triples):
+        name, hosts, pre = rng.choice(PHASES)
+        tr = [rng.choice(COMPOSITE_ACTIONS) for _ in range(3)]
+        out.append((list(hosts), list(pre) + [_composite(tr, [rng.choice([0, 0, 1, 2, 3]) for _ in range(2)], rng)] + tail(), "triple", name))
+    for _ in range(n_random):
+        hosts, evs = gen_random(rng)
+        evs = list(evs)
+        idx = [i for i, e in enumerate(evs) if e[0] in "esdxXpc"]
+        for i in rng.sample(idx, min(len(idx), rng.randrange(1, 4))):
+            other = rng.choice(COMPOSITE_ACTIONS)
+            first = evs[i]
+            second = _composite([other], [], rng, wid0=50 + i)
+            ys = ["."] * rng.choice([0, 0, 0, 1, 2, 3])
+            evs[i] = "+".join([first] + ys + [second] if rng.random() < 0.5 else [second] + ys + [first])
+        out.append((hosts, evs + [f"a:{12 * U}"], "random", "any"))
+    return out
+
+
+# --------------------------------------------------------------------------- pairing-record variants: histories
+
+def _scripted(rng, n=16):
+    """n scripted pair-verify behaviours (so that, with a record that cannot work, no connection falls back on the accessory's
+    unscripted default, which the model would take for a success)"""
+    return [ver_token(rng.choice(["ok", "ok", "ok", "ok", "ok", "wr", "au", "fa", "fa", "ha", "ol"]), rng) for _ in range(n)]
+
+
+def record_core(name):
+    """one fixed history per record variant: honest accessory, a caller, two back-off retries, a zeroconf wake-up, a long wait, close"""
+    return ([1], ["v:ok:ok"] * 16 + ["e:1:-", f"a:{U}", f"a:{2 * U}", "s", f"a:{12 * U}", "x", f"a:{12 * U}"], name)
+
+
+def gen_record_histories(rng, n, names=None):
+    """histories run with a damaged / altered pairing record: 16 scripted accessory behaviours, TCP faults, then a random
+    schedule of callers, zeroconf updates, time, accessory-side drops, closes; ends with close or shutdown and a wait"""
+    names = list(names or RECORDS)
+    out = [record_core(nm) for nm in names]
+    for i in range(n):
+        rec = names[i % len(names)]
+        H = rng.randrange(1, 4)
+        hosts = list(range(1, H + 1))
+        evs = []
+        r = rng.random()
+        if r < 0.2:
+            evs.append("t:r")
+        elif r < 0.3:
+            evs.append("t:t")
+        elif r < 0.5:
+            evs += [f"t:o:{rng.randrange(0, 3)}" for _ in range(rng.randrange(1, 4))]
+        evs += _scripted(rng)
+        wid = 1
+        evs.append(rng.choice(["e:1:-", "e:1:-", "s", "e:1:24577"]))
+        for _ in range(rng.randrange(4, 12)):
+            r = rng.random()
+            if r < 0.4:
+                evs.append("a:%d" % rng.choice([2, U // 2, 3 * U // 4, U, 2 * U, 5 * U, 12 * U, 31 * U, 70 * U]))
+            elif r < 0.55:
+                wid += 1
+                evs.append(f"e:{wid}:" + rng.choice(["-", "-", str(3 * U + 1)]))
+            elif r < 0.65:
+                evs.append("s")
+            elif r < 0.7:
+                evs.append("d:" + ",".join(map(str, rng.sample([1, 2, 3, 4], rng.randrange(1, 4)))))
+            elif r < 0.8:
+                evs.append("p:%d" % rng.randrange(0, 6))
+            elif r < 0.87:
+                evs.append("x")
+            elif r < 0.9:
+                evs.append(f"c:{rng.randrange(1, wid + 1)}")
+            else:
+                evs.append(f"x+e:{wid + 20}:-" if rng.random() < 0.5 else f"a:{U}")
+        end = rng.choice(["x", "x", "X"])
+        evs += [end, f"a:{U}", f"a:{12 * U}"]
+        out.append((hosts, evs, rec))
+    return out
